@@ -51,6 +51,43 @@ Wrap(S) == {ListT(t) : t \in S} \cup {DictT(t) : t \in S} \cup {OptT(t) : t \in 
 \* the type a field really has in the dataclass: a non-required field is `Optional[T] = None`
 EffTy(f) == IF f.req \/ f.ty.k = "opt" THEN f.ty ELSE OptT(f.ty)
 
+\* CLASS HIERARCHIES.  An entry may carry `extends` (key of its parent: single inheritance, chains of any depth) and
+\* `mixin` (a field-less extra base class).  `fields` lists the OWN fields; a field whose python name equals an
+\* inherited one overrides it (type / default).  The python meaning of the inner `Meta` class decides the wire keys
+\* of inherited fields: meta = "inherit" (no own Meta: the parent's maps apply, new fields are unmapped),
+\* "extend" (Meta = parent's maps + own entries), "own" (Meta lists only the own entries: inherited fields that are
+\* not overridden fall back to their python names).  Fs(cl, n) = all fields of n, inherited first.
+HasParent(cl, n) == "extends" \in DOMAIN cl[n]
+RECURSIVE Fs(_, _)
+Fs(cl, n) ==
+  IF ~HasParent(cl, n) THEN cl[n].fields
+  ELSE LET own == cl[n].fields
+           inh == Fs(cl, cl[n].extends)
+           ownAt(py) == own[CHOOSE i \in 1..Len(own) : own[i].py = py]
+           adj(f) == IF \E i \in 1..Len(own) : own[i].py = f.py THEN ownAt(f.py)
+                     ELSE IF cl[n].meta = "own" THEN [f EXCEPT !.wire = f.py] ELSE f
+       IN [i \in 1..Len(inh) |-> adj(inh[i])]
+          \o SelectSeq(own, LAMBDA f : ~\E i \in 1..Len(inh) : inh[i].py = f.py)
+\* the same table with every hierarchy resolved (each class lists all of its fields, no `extends`): what the
+\* semantic operators below are applied to (Fs of a flat table is a plain field access)
+Flat(cl) == [n \in DOMAIN cl |->
+               IF "pyname" \in DOMAIN cl[n] THEN [meta |-> cl[n].meta, fields |-> Fs(cl, n), pyname |-> cl[n].pyname]
+               ELSE [meta |-> cl[n].meta, fields |-> Fs(cl, n)]]
+RECURSIVE Ancestors(_, _)
+Ancestors(cl, n) == IF HasParent(cl, n) THEN {cl[n].extends} \cup Ancestors(cl, cl[n].extends) ELSE {}
+
+\* what the harness needs to BUILD the class: whether it has an own Meta and the (wire, python) pairs in it
+MetaPairs(cl, n) ==
+  LET own == cl[n].fields
+      pairsOf(fs, all) == [i \in 1..Len(fs) |-> <<fs[i].wire, fs[i].py>>]
+      differing(fs) == SelectSeq(fs, LAMBDA f : f.wire # f.py)
+  IN CASE cl[n].meta \in {"none", "inherit"} -> <<>>
+       [] cl[n].meta = "full"   -> pairsOf(own, TRUE)
+       [] cl[n].meta = "diff"   -> pairsOf(differing(own), TRUE)
+       [] cl[n].meta = "extend" -> pairsOf(Fs(cl, n), TRUE)
+       [] cl[n].meta = "own"    -> pairsOf(own, TRUE)
+WithBuild(cl) == [n \in DOMAIN cl |-> cl[n] @@ [build |-> [hasmeta |-> cl[n].meta \notin {"none", "inherit"}, pairs |-> MetaPairs(cl, n)]]]
+
 RECURSIVE Tops(_)
 Tops(T) ==        \* classes named by the annotation itself (through list / dict / Optional wrappers only)
   CASE T.k = "leaf" -> {}
@@ -59,7 +96,7 @@ Tops(T) ==        \* classes named by the annotation itself (through list / dict
 
 \* The classes of a table form a GRAPH (a field of P may mention Q and a field of Q may mention P: mutual
 \* recursion through list / dict / Optional / direct links), not only a tree: reachability is a fixpoint.
-FieldTops(cl, n) == UNION {Tops(cl[n].fields[i].ty) : i \in 1..Len(cl[n].fields)}
+FieldTops(cl, n) == UNION {Tops(Fs(cl, n)[i].ty) : i \in 1..Len(Fs(cl, n))}
 RECURSIVE ReachFix(_, _)
 ReachFix(cl, S) == LET nxt == S \cup UNION {FieldTops(cl, n) : n \in S} IN IF nxt = S THEN S ELSE ReachFix(cl, nxt)
 Reach(cl, T) == ReachFix(cl, Tops(T))   \* classes reachable through the annotation (what hook registration must cover)
@@ -71,7 +108,7 @@ TyDepthF(cl, T, fuel) ==
   CASE T.k = "leaf" -> 1
     [] T.k \in {"list", "dict", "opt"} -> 1 + TyDepthF(cl, T.of, fuel)
     [] T.k = "cls" -> IF fuel = 0 THEN 1
-                      ELSE 1 + Max({0} \cup {TyDepthF(cl, cl[T.name].fields[i].ty, fuel - 1) : i \in 1..Len(cl[T.name].fields)})
+                      ELSE 1 + Max({0} \cup {TyDepthF(cl, Fs(cl, T.name)[i].ty, fuel - 1) : i \in 1..Len(Fs(cl, T.name))})
 TyDepth(cl, T) == TyDepthF(cl, T, 4)     \* for a cyclic table: depth of the unfolding used for instances
 
 \* key styles: (python name, wire key) per field position, per class role.  Keyword-like keys, camelCase
@@ -98,14 +135,22 @@ PyName(role, style, i)   == StyleTab[role][style][i][1]
 WireName(role, style, i) == StyleTab[role][style][i][2]
 
 \* a key map is usable only when it is a bijection between python names and wire keys (the property's quantifier)
-KeysBijective(c) ==
-  \A i, j \in 1..Len(c.fields) : i # j => (c.fields[i].py # c.fields[j].py /\ c.fields[i].wire # c.fields[j].wire)
+KeysBijective(cl, n) ==
+  LET fs == Fs(cl, n) IN \A i, j \in 1..Len(fs) : i # j => (fs[i].py # fs[j].py /\ fs[i].wire # fs[j].wire)
 \* Class identity is the table key.  DISTINCT classes may share their python name (`__module__` + `__qualname__`):
 \* models returned by a factory (`page_of(User)` / `page_of(Order)` are both `page_of.<locals>.Page`),
 \* `make_dataclass` under a fixed name, a reloaded model module.  An entry may carry `pyname`; default = its key.
 PyClsName(cl, n) == IF "pyname" \in DOMAIN cl[n] THEN cl[n].pyname ELSE n
 
-MetaConsistent(c) == c.meta = "none" => \A i \in 1..Len(c.fields) : c.fields[i].py = c.fields[i].wire
+MetaConsistent(cl, n) ==
+  LET own == cl[n].fields IN
+  IF HasParent(cl, n)
+  THEN cl[n].meta \in {"inherit", "extend", "own"}
+       /\ (cl[n].meta = "inherit" =>
+             \A i \in 1..Len(own) : LET inh == Fs(cl, cl[n].extends)
+                                         same == {k \in 1..Len(inh) : inh[k].py = own[i].py}
+                                     IN own[i].wire = (IF same = {} THEN own[i].py ELSE inh[CHOOSE k \in same : TRUE].wire))
+  ELSE cl[n].meta \in {"none", "full", "diff"} /\ (cl[n].meta = "none" => \A i \in 1..Len(own) : own[i].py = own[i].wire)
 
 ----------------------------------------------------------------------------
 (* leaf universe: two distinguishable values per leaf type.  Spell = wire spellings denoting the value (the   *)
@@ -160,7 +205,7 @@ Conforms(cl, j, T) ==
     [] T.k = "opt"  -> j.t = "n" \/ Conforms(cl, j, T.of)
     [] T.k = "list" -> j.t = "l" /\ \A i \in 1..Len(j.items) : Conforms(cl, j.items[i], T.of)
     [] T.k = "dict" -> j.t = "o" /\ \A key \in DOMAIN j.f : Conforms(cl, j.f[key], T.of)
-    [] T.k = "cls"  -> j.t = "o" /\ LET fs == cl[T.name].fields IN
+    [] T.k = "cls"  -> j.t = "o" /\ LET fs == Fs(cl, T.name) IN
                          \A i \in 1..Len(fs) :
                             IF fs[i].wire \in DOMAIN j.f THEN Conforms(cl, j.f[fs[i].wire], EffTy(fs[i]))
                             ELSE ~fs[i].req
@@ -180,7 +225,7 @@ RepF(cl, T, m, fuel) ==
     [] T.k = "dict" -> IF fuel = 0 THEN WObj(<<>>)
                        ELSE IF m = 1 THEN WObj([key \in {"k1", "class"} |-> IF key = "k1" THEN RepF(cl, T.of, 1, fuel) ELSE RepF(cl, T.of, 2, fuel)])
                        ELSE IF m = 2 THEN WObj([key \in {"userId"} |-> RepF(cl, T.of, 2, fuel)]) ELSE WObj(<<>>)
-    [] T.k = "cls"  -> LET fs == cl[T.name].fields
+    [] T.k = "cls"  -> LET fs == Fs(cl, T.name)
                            sub == IF fuel = 0 THEN 0 ELSE fuel - 1
                            present == {i \in 1..Len(fs) : (m # 2 /\ fuel # 0) \/ fs[i].req}
                            at(w) == CHOOSE i \in present : fs[i].wire = w
@@ -194,12 +239,17 @@ Choice(cl, f) == {[present |-> TRUE, j |-> Rep(cl, EffTy(f), m)] : m \in 1..3}
                    \cup (IF f.req THEN {} ELSE {[present |-> FALSE, j |-> WNull]})
 Instances(cl, T) ==
   IF T.k = "cls" THEN
-    LET fs == cl[T.name].fields
+    LET fs == Fs(cl, T.name)
         n  == Len(fs)
         all == UNION {Choice(cl, fs[i]) : i \in 1..n}
-        combos == {g \in [1..n -> all] : \A i \in 1..n : g[i] \in Choice(cl, fs[i])}
+        \* up to 3 fields: the full product; wider classes: the three representatives of the class plus every
+        \* single-field variation of the all-present instance (every choice of every field occurs)
+        g0 == [i \in 1..n |-> [present |-> TRUE, j |-> Rep(cl, EffTy(fs[i]), 1)]]
+        combos == IF n <= 3 THEN {g \in [1..n -> all] : \A i \in 1..n : g[i] \in Choice(cl, fs[i])}
+                  ELSE {g0} \cup UNION {{[g0 EXCEPT ![i] = c] : c \in Choice(cl, fs[i])} : i \in 1..n}
         at(w) == CHOOSE i \in 1..n : fs[i].wire = w
     IN {WObj([w \in {fs[i].wire : i \in {x \in 1..n : g[x].present}} |-> g[at(w)].j]) : g \in combos}
+       \cup (IF n <= 3 THEN {} ELSE {Rep(cl, T, m) : m \in 1..3})
   ELSE {Rep(cl, T, m) : m \in 1..3}
 
 \* hk = set of class names whose hook is registered; a class without a hook falls to cattrs' default for
@@ -227,7 +277,7 @@ Dec(cl, hk, T, j) ==
                  ELSE LET b == CHOOSE key \in bad : TRUE IN VErr(rs[b].what, <<WStep("dict")>> \o rs[b].steps)
     [] T.k = "cls" ->
          IF j.t # "o" THEN VErr(IF j.t = "n" THEN "null" ELSE "notobj", <<>>)
-         ELSE LET fs == cl[T.name].fields
+         ELSE LET fs == Fs(cl, T.name)
                   key(i) == IF T.name \in hk THEN fs[i].wire ELSE fs[i].py
                   one(i) == IF key(i) \in DOMAIN j.f THEN Dec(cl, hk, EffTy(fs[i]), j.f[key(i)])
                             ELSE IF fs[i].req THEN VErr("missing", <<>>) ELSE VNone
@@ -245,7 +295,7 @@ Enc(cl, hk, T, v) ==
     [] T.k = "opt"  -> IF v.t = "none" THEN WNull ELSE Enc(cl, hk, T.of, v)
     [] T.k = "list" -> WList([i \in 1..Len(v.items) |-> Enc(cl, hk, T.of, v.items[i])])
     [] T.k = "dict" -> WObj([key \in DOMAIN v.f |-> Enc(cl, hk, T.of, v.f[key])])
-    [] T.k = "cls"  -> LET fs == cl[T.name].fields
+    [] T.k = "cls"  -> LET fs == Fs(cl, T.name)
                            key(i) == IF T.name \in hk THEN fs[i].wire ELSE fs[i].py
                            at(w) == CHOOSE i \in 1..Len(fs) : key(i) = w
                        IN WObj([w \in {key(i) : i \in 1..Len(fs)} |-> Enc(cl, hk, EffTy(fs[at(w)]), v.f[fs[at(w)].py])])
@@ -279,7 +329,7 @@ Diff(cl, T, a, b, ser) ==
                                ELSE LET bad == {key \in want : Diff(cl, T.of, a.f[key], b.f[key], ser) # "ok"}
                                     IN IF bad = {} THEN "ok" ELSE LET k0 == CHOOSE key \in bad : TRUE IN Diff(cl, T.of, a.f[k0], b.f[k0], ser)
     [] T.k = "cls"  -> IF b.t # "o" THEN "shape"
-                       ELSE LET fs == cl[T.name].fields
+                       ELSE LET fs == Fs(cl, T.name)
                                 wires == {fs[i].wire : i \in 1..Len(fs)}
                                 one(i) == LET w == fs[i].wire IN
                                    IF w \in DOMAIN a.f /\ a.f[w].t # "n"
@@ -344,7 +394,7 @@ Mut(cl, T, j) ==
                        \cup (IF DOMAIN j.f = {} THEN {}
                              ELSE LET k0 == CHOOSE key \in DOMAIN j.f : TRUE
                                   IN {Under(WStep("dict"), m, WObj([j.f EXCEPT ![k0] = m.j])) : m \in Mut(cl, T.of, j.f[k0])})
-    [] T.k = "cls"  -> LET fs == cl[T.name].fields
+    [] T.k = "cls"  -> LET fs == Fs(cl, T.name)
                            here == {i \in 1..Len(fs) : fs[i].wire \in DOMAIN j.f}
                            drop(w) == WObj([x \in (DOMAIN j.f) \ {w} |-> j.f[x]])
                        IN {Mu(WLeaf("i", "5"), "notobj", "", <<>>)}
